@@ -262,7 +262,9 @@ func raceSig(s string) string {
 			return "race:" + strings.TrimPrefix(ln, "github.com/twpayne/go-geom")
 		}
 	}
-	return "race:unknown"
+	// no library frame on either stack: both accesses are the callers' own
+	// (writes through slices the library handed to two different callers)
+	return "race:callers-share-storage"
 }
 
 func firstLines(s string, n int) string {
